@@ -561,6 +561,7 @@ func (w *WSpec) referencePre(pre map[string]string) *Ref {
 		}
 	}
 	producer := map[string]string{} // path -> task key
+	preDir := map[string]bool{}     // directory outputs that pre-exist (with some of their files)
 	paramEmit := map[string][]string{}
 	done := map[string]bool{}
 	for len(done) < len(w.Procs) {
@@ -742,6 +743,12 @@ func (w *WSpec) referencePre(pre map[string]string) *Ref {
 							r.Files[path+"/part1"] = contentOf(p.Name, o.Name+"/part1", inContent, t.Params)
 							r.Files[path+"/part2"] = contentOf(p.Name, o.Name+"/part2", inContent, t.Params)
 							r.DirOuts[path] = []string{path + "/part1", path + "/part2"}
+							for _, f := range r.DirOuts[path] {
+								if c, ok := pre[f]; ok {
+									r.Files[f] = c
+									preDir[path] = true
+								}
+							}
 						} else if !o.Stream {
 							r.Files[path] = contentOf(p.Name, o.Name, inContent, t.Params)
 						}
@@ -753,12 +760,17 @@ func (w *WSpec) referencePre(pre map[string]string) *Ref {
 					}
 					skip := false
 					for _, path := range t.Outs {
-						if _, ok := pre[path]; ok {
+						if _, ok := pre[path]; ok || preDir[path] {
 							skip = true
 						}
 					}
 					if skip {
 						for _, path := range t.Outs {
+							for _, f := range r.DirOuts[path] {
+								if _, ok := pre[f]; !ok {
+									delete(r.Files, f)
+								}
+							}
 							if _, ok := pre[path]; !ok {
 								delete(r.Files, path) // the task is not executed: this output never comes into being
 							}
